@@ -121,6 +121,14 @@ def encFullStatusDescriptor (d : Vals × TidKind × Vals) : List Nat := fullStat
 def encReadFullStatus (gen : Nat) (ds : List (Vals × TidKind × Vals)) : List Nat :=
   toBytes gen 4 ++ toBytes (48 * ds.length) 4 ++ (ds.map encFullStatusDescriptor).flatten
 
+/-- REPORT CAPABILITIES parameter data once more (SPC-4 table 186), the PERSISTENT RESERVATION TYPE MASK spelled out
+    bit by bit (table 187) instead of as one 16-bit field: the second reading of the same eight bytes -/
+def prReportCapabilitiesBits : Block := ⟨"prreportcapabilities_bits", 0, 8,
+  [⟨"length", 0, 7, 16⟩, ⟨"rlr_c", 2, 7, 1⟩, ⟨"crh", 2, 4, 1⟩, ⟨"sip_c", 2, 3, 1⟩, ⟨"atp_c", 2, 2, 1⟩, ⟨"ptpl_c", 2, 0, 1⟩,
+   ⟨"tmv", 3, 7, 1⟩, ⟨"allow_commands", 3, 6, 3⟩, ⟨"ptpl_a", 3, 0, 1⟩,
+   ⟨"wr_ex_ar", 4, 7, 1⟩, ⟨"ex_ac_ro", 4, 6, 1⟩, ⟨"wr_ex_ro", 4, 5, 1⟩, ⟨"ex_ac", 4, 3, 1⟩, ⟨"wr_ex", 4, 1, 1⟩,
+   ⟨"ex_ac_ar", 5, 0, 1⟩]⟩
+
 /-- a TransportID inside a full status descriptor: one of the fixed-size formats, or the iSCSI name format (00b) -/
 inductive Tid
   | fixed (K : TidKind) (tv : Vals)
